@@ -69,7 +69,12 @@ def Read(text, strict=False):
         If `text` is invalid RING for non-syntactic reasons.
     """
     from . import Parser
+    from .. Error import RINGReaderError
     try:
         return Reader(Parser.parse(text)).Read()
     except RINGError as exc:
         raise exc
+    except RecursionError:
+        # parser and readers are recursive descents: a very long atom or
+        # transformation chain exhausts the interpreter's stack
+        raise RINGReaderError('RING input is nested too deeply to be read')
